@@ -214,6 +214,37 @@ async def workflow_case(context):
     return None
 
 
+async def incremental_save_case(context):
+    """a workflow that is saved, extended (new ports wired to steps that are ALREADY persisted, new steps) and saved again — what the
+    engine does when it adds steps to a running workflow — loads back as the extended workflow"""
+    wf = random_workflow(context)
+    comb = DotProductCombinator(name=uniq("comb"), workflow=wf)
+    comb.add_item("p0")
+    first = wf.create_step(cls=CombinatorStep, name="/" + uniq("s") + "-early-combinator", combinator=comb)
+    first.add_input_port("p0", wf.create_port())
+    first.add_output_port("p0", wf.create_port())
+    await wf.save(context.database)
+    old_steps = [s for s in wf.steps.values() if not isinstance(s, (GatherStep, ScatterStep))]
+    for s in rng.sample(old_steps, min(len(old_steps), rng.randint(1, 2))):
+        extra_in, extra_out = wf.create_port(), wf.create_port()
+        s.add_input_port(uniq("late_in"), extra_in)
+        s.add_output_port(uniq("late_out"), extra_out)
+        if isinstance(s, CombinatorStep):
+            s.combinator.add_item(list(s.input_ports)[-1])
+    ns = wf.create_step(cls=ScatterStep, name="/" + uniq("s") + "-late-scatter")
+    ns.add_input_port("in", wf.create_port())
+    ns.add_output_port("out", wf.create_port())
+    want = describe_workflow(wf)
+    await wf.save(context.database)
+    got = describe_workflow(await Workflow.load(persistent_id=wf.persistent_id, loading_context=DefaultDatabaseLoadingContext(database=context.database)))
+    # (combinator parameters are written with the step's first save only: not compared here)
+    strip = lambda d: {n: (v[0], v[1], v[2]) for n, v in d["steps"].items()}
+    if strip(got) != strip(want) or got["ports"] != want["ports"]:
+        diff = {n: (strip(want).get(n), strip(got).get(n)) for n in set(strip(want)) | set(strip(got)) if strip(want).get(n) != strip(got).get(n)}
+        return {"failure": "a workflow saved, extended and saved again does not load back with the wiring it has", "differences": str(diff)[:900]}
+    return None
+
+
 def generic(o, depth=0):
     """structural description of a parameter object: class name + every attribute (recursively), without the back references"""
     import enum
@@ -281,7 +312,7 @@ async def search(n):
     try:
         await port_twice_case(context)
         for k in range(n):
-            bad = await asyncio.wait_for([token_case, workflow_case, token_case, cwl_case][k % 4](context), 60)
+            bad = await asyncio.wait_for([token_case, workflow_case, token_case, cwl_case, incremental_save_case][k % 5](context), 60)
             if bad:
                 return bad
     except Exception as e:
